@@ -87,6 +87,8 @@ def gen_cases(rng, tier):
     # are not merged into one (evaluated at negative points too)
     texts += ["(x ** 2) ** (1/2)", "(x ^ 2) ^ (1/2)", "(x ** 2) ** (3/2)", "((x - y) ** 2) ** (1/2)", "(a.#q ** 2) ** (1/2) + 1", "(x ** 4) ** (1/2)",
               "(x ** 2) ** (1/2) - x", "2 * (y ^ 2) ^ (1/2) / 3"]
+    # sgn of an argument that is provably >= 0 (or <= 0) but may be ZERO: not folded to 1 (or -1)
+    texts += ["sgn(x % 3)", "sgn(mod(x, 5))", "sgn(max(0, x - 5))", "sgn(-(x % 3))", "sgn((x % 3) * (y % 2))", "sgn(x % 3 + 1)", "sgn(max(0, x)) + 1"]
     # identifiers wrapped in underscores the way the parser's own placeholders (__lambda__, __in__) are: ordinary names, every
     # one of them distinct from the name between the underscores
     texts += ["__n__", "__n__ - n", "2*__n__ + n**2", "a.__n__.x", "a.#__n__ + a.#n", "__max__(2, 5)", "__f__(x) - f(x)", "_x_ + x", "__x + x__",
@@ -130,7 +132,8 @@ def rand_text(rng, depth):
 
 
 def points():
-    vals = [[2, 3, 5, 7, 4, 6, 9, 8], [3, 2, 7, 5, 9, 4, 6, 10]]
+    # (the third point has negative values, a zero and multiples of 3: sgn(x % 3), (x ** 2) ** (1/2), max(0, x - 5) at their edges)
+    vals = [[2, 3, 5, 7, 4, 6, 9, 8], [3, 2, 7, 5, 9, 4, 6, 10], [-3, 6, 0, -2, 9, 3, -6, 12]]
     return [{n: [v, 1] for n, v in zip(NAMES, vs)} for vs in vals]
 
 
